@@ -63,9 +63,19 @@ fn print_xml(
 		|node_id: NodeId| print_xml(nodes, node_id, tokens, source);
 	let print_prev = |node_id: usize| print_item(NodeId(U24::new(node_id)));
 	let print_list = |node_id: NodeId, meta: &'static str| {
+		// Walk the list with a loop: recursing through every `next`
+		// would need a stack as deep as the list is long.
+		let mut items = Vec::new();
+		let mut current = node_id;
+		while let ListItem { next } = nodes[usize::from(current.0)]
+		{
+			items.push(print_prev(usize::from(current.0) - 1));
+			current = next;
+		}
 		Box::new(
 			once(format!("<List meta=\"{meta}\">"))
-				.chain(print_xml(nodes, node_id, tokens, source))
+				.chain(items.into_iter().flatten())
+				.chain(print_item(current))
 				.chain(once(format!("</List>"))),
 		)
 	};
